@@ -58,8 +58,8 @@ Proof.
 Qed.
 
 (* ---- header validity is preserved by everything the writer can do, crashes included ---- *)
-Lemma w_step_valid c w r w' it :
-  header_valid (w_log w) = true -> w_step c w r = (w', it) -> header_valid (w_log w') = true.
+Lemma w_step_valid c w r k w' it :
+  header_valid (w_log w) = true -> w_step c w r k = (w', it) -> header_valid (w_log w') = true.
 Proof.
   unfold header_valid, w_step. intros H S.
   apply andb_true_iff in H as [Hv Hg].
@@ -91,8 +91,8 @@ Proof.
 Qed.
 
 (* an update started from an odd generation (left by a crash) adopts it *)
-Lemma adopt_odd c w r : w_pc w = WIdle -> Z.odd (latest_val LGen (w_log w)) = true ->
-  let w1 := fst (w_step c w r) in let w2 := fst (w_step c w1 r) in
+Lemma adopt_odd c w r k : w_pc w = WIdle -> Z.odd (latest_val LGen (w_log w)) = true ->
+  let w1 := fst (w_step c w r k) in let w2 := fst (w_step c w1 r k) in
   latest_val LGen (w_log w2) = latest_val LGen (w_log w).
 Proof.
   intros PC Hodd. cbv zeta. unfold w_step at 2. rewrite PC. cbn [fst].
